@@ -27,6 +27,7 @@ ENVS = [
     {'x1': None, 'x2': 5, 'x3': None, 'x4': 2, 'x5': 3},
     {'x1': 'a', 'x2': 'b', 'x3': 'a', 'x4': 2, 'x5': 'bc'},
     {'x1': True, 'x2': 1, 'x3': False, 'x4': 0, 'x5': 4},
+    {'x1': 'aB', 'x2': 'Ab', 'x3': 1, 'x4': True, 'x5': 'a'},
 ]
 
 
